@@ -1,4 +1,4 @@
-import IoraModel.Lemmas.ConnectSyncG
+import IoraModel.Lemmas.ConnectSyncH
 import IoraModel.Model.TsyncFacts
 /-!
 # C04 — Synchronous connect yields a live session or a definite error in time
@@ -147,6 +147,7 @@ end Iora.C04.Core
 namespace Iora.C04
 open Iora Iora.ConnectSync
 
+set_option maxRecDepth 100000 in
 /-- The model is INSTANTIATED from the skeleton regenerated from `transport_impl.hpp` (`Model/ConnectSync.lean`: `genCfg`, `stepC`):
 `connectSync` holds `syncMutex` continuously from before the entry-fence check through `engine->connect`, the registration and
 the ParkGuard into `wait_for`; after the wait there is exactly ONE unlock window, it contains only `engine->close`, and
@@ -156,7 +157,24 @@ the ParkGuard into `wait_for`; after the wait there is exactly ONE unlock window
 `engine->connect` unchanged, an engine error is returned as is, the id is the engine's and the timeout exit closes that id. -/
 theorem skeleton_conforms : genCfg.Good := by
   unfold Cfg.Good genCfg
-  exact ⟨by decide, by decide, by decide, by decide, by decide⟩
+  exact ⟨by decide, by decide, by decide, by decide, by decide, by decide, by decide⟩
+
+set_option maxRecDepth 100000 in
+/-- **Engine contract, from the source.** The instance regenerated from `tcp_engine.hpp` / `udp_engine.hpp` holds: `close(sid)` of
+both engines is exactly `return enqueue(close(sid))`, `connect()` only takes an id and enqueues, the Close arm of `process()`
+closes the session it finds (only timer-originated closes are filtered). This is what `Cfg.engine` is computed from; every C04
+theorem is stated under it (`Cfg.Good`). -/
+theorem engine_contract_from_source :
+    ConnectSyncFacts.genEngine = { closeEnqueues := true, connectEnqueues := true, processCloses := true } := by decide
+
+/-- **Exact skeleton pins (review item C).** Head and tail of `connectSync`, the pending branches of both handlers and the
+statement order of `connectSyncCancellable` are equal, event by event, to the lists in `Model/ConnectSyncFacts.lean`; `timeout` is
+assigned only by the saturation clamp. -/
+theorem skeleton_exact :
+    ConnectSyncFacts.connectHeadExact = true ∧ ConnectSyncFacts.connectTailExact = true ∧
+    ConnectSyncFacts.onConnectPendingExact = true ∧ ConnectSyncFacts.onClosePendingExact = true ∧
+    ConnectSyncFacts.wrapperOrderExact = true ∧ ConnectSyncFacts.timeoutOnlyClamped = true ∧
+    ConnectSyncFacts.noProtocolBypass = true := by decide
 
 /-- FC03b: both connect functions saturate their timeout before it enters clock arithmetic (`wait_for`'s `now() + rel_time`, the
 wrapper's `now() + timeout`), so `std::chrono::milliseconds::max()` — "no timeout" — cannot wrap the deadline into the past. -/
@@ -246,6 +264,66 @@ theorem T3_non_ok_leaves_nothing_open (cfg : Cfg) (hg : cfg.Good) (steps : List 
     | closed => exact Or.inr (Or.inr (Or.inl (I.E3 sid ((I.D1 sid).2.1 (I2.RC2 c sid hr)))))
     | refused => have := I2.RF c _ hr; cases this
 
+/-- **T3 (the clause as stated: a timed-out attempt leaves no open connection behind).** Under the engine contract, once the
+engine has drained its FIFO the session of every connectSync attempt that returned its own Timeout is CLOSED in the engine. -/
+theorem T3_timed_out_attempt_is_closed (cfg : Cfg) (hg : cfg.Good) (steps : List Step) (c sid : Nat)
+    (h : Ev.attemptRet c (some sid) (.err .timeout) ∈ (runC cfg init steps).log) (hq : (runC cfg init steps).fifo = []) :
+    (runC cfg init steps).eng sid = .closed :=
+  T3_nothing_left_open cfg hg steps c sid (T3_timeout_closes cfg hg steps c sid h) hq
+
+/-- a configuration that satisfies every fact EXCEPT the engine contract: `close()` may return without queueing (seed C04-d) -/
+def cfgDroppingClose : Cfg :=
+  { lockHeld := true, closeWindow := true, handlers := true, timing := true, args := true, engine := false, noBypass := true }
+
+/-- the schedule of seed C04-d: the caller times out and calls `engine->close` BEFORE the I/O thread has executed the queued
+Connect; afterwards the Connect is executed and the handshake completes -/
+def droppedCloseWitness : List Step :=
+  [.call 0 false, .cEnter 0, .cConnect 0, .cRegister 0, .cPark 0, .cWake 0 true, .cClose 0, .cRelock 0,
+   .ioPop true, .ioComplete 1, .ioStep]
+
+/-- **The engine contract is NECESSARY.** With an engine whose `close(sid)` drops the command for an id that is not yet in its
+session table, `T3_timed_out_attempt_is_closed` is false: the call returns Timeout, the FIFO drains, and the session is
+ESTABLISHED with nobody owning it (and its abandoned `pendingConnects` record is never erased). -/
+theorem dropped_close_refutes_T3 :
+    let s := runC cfgDroppingClose init droppedCloseWitness
+    Ev.attemptRet 0 (some 1) (.err .timeout) ∈ s.log ∧ Ev.engineClose 0 1 ∈ s.log ∧ s.fifo = [] ∧ s.io = .idle ∧
+    s.eng 1 = .established ∧ (s.pend 1).isSome = true := by decide
+
+/-- a configuration that satisfies every fact EXCEPT `noBypass`: the tree before repair FC04b on a UDP transport -/
+def cfgBypass : Cfg :=
+  { lockHeld := true, closeWindow := true, handlers := true, timing := true, args := true, engine := true, noBypass := false }
+
+/-- C04's first and third clause, as one statement about a configuration: `ok sid` is returned only after the `onConnect`
+handler ran for `sid`, and the global connect callback never fires for a connectSync-created session -/
+def C04_udp_statement (cfg : Cfg) : Prop :=
+  ∀ (steps : List Step) (c sid : Nat),
+    (Ev.attemptRet c (some sid) (.ok sid) ∈ (runC cfg init steps).log → Ev.hConnect sid ∈ (runC cfg init steps).log) ∧
+    (Ev.globalConnect sid ∈ (runC cfg init steps).log → Ev.created c sid ∉ (runC cfg init steps).log) ∧
+    (Ev.globalClose sid ∈ (runC cfg init steps).log → Ev.created c sid ∈ (runC cfg init steps).log →
+      Ev.delivered sid true ∈ (runC cfg init steps).log)
+
+/-- **FC04b — the unrepaired UDP bypass violates C04** (three witnesses: `ok 1` before anything happened; then the connect
+completes and the GLOBAL connect callback fires for the connectSync-created id; or the host does not resolve and the GLOBAL close
+callback reports it for a session that never existed). -/
+theorem C04_udp_refuted : ¬ C04_udp_statement cfgBypass := by
+  intro h
+  have h1 := (h [.call 0 false, .cEnter 0] 0 1).1
+  revert h1; decide
+
+theorem C04_udp_refuted_global_connect :
+    let s := runC cfgBypass init [.call 0 false, .cEnter 0, .ioPop true, .ioComplete 1, .ioStep, .ioStep]
+    Ev.attemptRet 0 (some 1) (.ok 1) ∈ s.log ∧ Ev.created 0 1 ∈ s.log ∧ Ev.globalConnect 1 ∈ s.log := by decide
+
+theorem C04_udp_refuted_unresolved :
+    let s := runC cfgBypass init [.call 0 false, .cEnter 0, .ioPop false, .ioStep, .ioStep]
+    Ev.attemptRet 0 (some 1) (.ok 1) ∈ s.log ∧ Ev.globalClose 1 ∈ s.log ∧ Ev.hConnect 1 ∉ s.log ∧ s.eng 1 = .closed := by decide
+
+/-- **FC04b repaired: the statement holds of every `Good` configuration** (in particular of `genCfg`, whatever the protocol). -/
+theorem C04_udp_holds_when_repaired (cfg : Cfg) (hg : cfg.Good) : C04_udp_statement cfg := by
+  intro steps c sid
+  refine ⟨fun h => (T1_ok_is_live cfg hg steps c sid sid h).2.2.1, fun h => T2_no_global_connect cfg hg steps c sid h,
+    fun h hc => (T2_global_close_only_for_handed_out cfg hg steps c sid h hc).1⟩
+
 /-- **T4 (register before completion).** -/
 theorem T4_register_before_completion (cfg : Cfg) (hg : cfg.Good) (steps : List Step) (c sid : Nat)
     (h : Ev.hConnect sid ∈ (runC cfg init steps).log) (hc : Ev.created c sid ∈ (runC cfg init steps).log) :
@@ -298,6 +376,45 @@ theorem T_tls_mode_as_requested (cfg : Cfg) (hg : cfg.Good) (steps : List (Step 
     (xrun cfg xinit steps).sessTls sid = (xrun cfg xinit steps).reqTls c :=
   (xrun_inv hg steps xinit Inv_init InvX_init).2 c sid (by simp [hp, att])
 
+/-- **H2 for the session a call RETURNS.** Argument layer, every schedule: at the step that logs `ret ok sid` for caller `c`, the
+session `sid` was created by an `engine->connect` carrying the TLS mode this call requested (uses `Cfg.args`: host, port and TLS
+mode reach `engine->connect` unchanged). -/
+theorem T_tls_mode_of_returned_session (cfg : Cfg) (hg : cfg.Good) (steps : List (Step × Nat)) (st : Step) (n c sid : Nat)
+    (hnew : Ev.attemptRet c (some sid) (.ok sid) ∈ (xstep cfg (xrun cfg xinit steps) st n).core.log)
+    (hold : Ev.attemptRet c (some sid) (.ok sid) ∉ (xrun cfg xinit steps).core.log) :
+    (xrun cfg xinit steps).sessTls sid = (xrun cfg xinit steps).reqTls c := by
+  have I := xrun_inv hg steps xinit Inv_init InvX_init
+  rw [xstep_core, stepC_good hg] at hnew
+  rcases aret_origin _ _ _ _ _ hnew with h | h
+  · exact absurd h hold
+  · exact I.2 c sid h
+
+/-- **Definite error (L8).** Every schedule: a connectSync attempt returns the engine-reported error class only after the engine's
+`onClose` handler ran for THIS attempt's session and completed its waiter; the engine has closed that session; and the reason
+class recorded for it — the one the driver prints as the call's error (Connect, Resolve, Timeout, TLSHandshake, …) — can no
+longer change. `T_reason_is_written_by_the_closing_step` says where it came from. -/
+theorem T_error_is_the_reported_one (cfg : Cfg) (hg : cfg.Good) (steps : List (Step × Nat)) (c sid : Nat)
+    (h : Ev.attemptRet c (some sid) (.err .closed) ∈ (xrun cfg xinit steps).core.log) :
+    Ev.hClose sid ∈ (xrun cfg xinit steps).core.log ∧ Ev.delivered sid false ∈ (xrun cfg xinit steps).core.log ∧
+    (xrun cfg xinit steps).core.eng sid = .closed ∧
+    ∀ st n, (xstep cfg (xrun cfg xinit steps) st n).reason sid = (xrun cfg xinit steps).reason sid := by
+  have hcore : (xrun cfg xinit steps).core = run init (steps.map (·.1)) := by
+    rw [xrun_core, runC_good hg]; rfl
+  rw [hcore] at h ⊢
+  have I := reachable_inv (steps.map (·.1))
+  have I2 := reachable_inv2 (steps.map (·.1))
+  have hd := I2.RC2 c sid h
+  have hh := (I.D1 sid).2.1 hd
+  have he := I.E3 sid hh
+  refine ⟨hh, hd, he, fun st n => reason_frozen cfg _ st n sid (by rw [hcore]; exact he)⟩
+
+/-- the reason class of a session is the number carried by the step that BEGINS its close handler (a failing Connect, a Close
+command found in the table, a failing or peer-closed connection) — and such a step exists only for a session the engine has not
+closed yet, so the reason is written exactly once -/
+theorem T_reason_is_written_by_the_closing_step (cfg : Cfg) (x : XState) (st : Step) (n sid : Nat)
+    (h : closeBegins x.core st = some sid) : (xstep cfg x st n).reason sid = n ∧ x.core.eng sid ≠ .closed :=
+  ⟨reason_written cfg x st n sid h, closeBegins_not_closed _ _ _ h⟩
+
 /-- **T6 (cancellable wrapper).** -/
 theorem T6_wrapper_ok (cfg : Cfg) (hg : cfg.Good) (steps : List Step) (c sid : Nat)
     (h : Ev.wrapRet c (.ok sid) ∈ (runC cfg init steps).log) :
@@ -307,6 +424,36 @@ theorem T6_wrapper_ok (cfg : Cfg) (hg : cfg.Good) (steps : List Step) (c sid : N
 theorem T6_cancelled_only_if_cancelled (cfg : Cfg) (hg : cfg.Good) (steps : List Step) (c : Nat)
     (h : Ev.wrapRet c (.err .cancelled) ∈ (runC cfg init steps).log) : ((runC cfg init steps).callers c).cancelled = true := by
   rw [runC_good hg] at h ⊢; exact Core.T6_cancelled_only_if_cancelled steps c h
+
+/-- **T6 (Cancelled is decided by the wrapper's own token checks, never in place of a sub-attempt's result).** Every schedule: the
+step that logs `wrapRet c Cancelled` is the pre-cancel check of `call c true` or the loop check `wLoop c false` taken from the
+wrapper's loop head — so the sub-attempt before it had returned its own Timeout (`T3_timeout_closes`: its session was closed by
+`engine->close`). A sub-attempt that returns `ok sid` is always handed on as `ok sid` (seed C04-b broke exactly this). -/
+theorem T6_cancelled_only_at_token_checks (cfg : Cfg) (hg : cfg.Good) (steps : List Step) (st : Step) (c : Nat)
+    (hnew : Ev.wrapRet c (.err .cancelled) ∈ (stepC cfg (runC cfg init steps) st).log)
+    (hold : Ev.wrapRet c (.err .cancelled) ∉ (runC cfg init steps).log) :
+    (st = .wLoop c false ∧ ((runC cfg init steps).callers c).pc = .wloop) ∨
+    (st = .call c true ∧ (((runC cfg init steps).callers c).pc = .idle ∨ ((runC cfg init steps).callers c).pc = .finished)) := by
+  rw [stepC_good hg, runC_good hg] at hnew
+  rw [runC_good hg] at hold ⊢
+  rcases wrapCancelled_origin (reachable_inv steps) st c hnew with h | h | h
+  · exact absurd h hold
+  · exact Or.inl h
+  · exact Or.inr h
+
+/-- a configuration that satisfies every fact EXCEPT the wrapper's statement order (`Cfg.timing`): token before result (seed C04-b) -/
+def cfgTokenFirst : Cfg :=
+  { lockHeld := true, closeWindow := true, handlers := true, timing := false, args := true, engine := true, noBypass := true }
+
+/-- **The wrapper's statement order is NECESSARY** ("a cancelled attempt leaves no open connection behind"): with the token looked at
+before the sub-attempt's result, a wrapper cancelled while its sub-attempt completes returns Cancelled although that sub-attempt
+returned `ok 1` — nobody issued `engine->close(1)`, the FIFO is empty and session 1 stays ESTABLISHED, owned by no one. -/
+theorem token_first_refutes_cancel_clause :
+    let s := runC cfgTokenFirst init [.call 0 true, .cEnter 0, .cConnect 0, .cRegister 0, .cPark 0, .cancel 0, .ioPop true,
+      .ioComplete 1, .ioStep, .ioStep, .cWake 0 false]
+    Ev.wrapRet 0 (.err .cancelled) ∈ s.log ∧ Ev.wrapRet 0 (.ok 1) ∉ s.log ∧
+    s.log.filter (fun e => match e with | .engineClose _ _ => true | _ => false) = [] ∧ s.fifo = [] ∧
+    s.io = .idle ∧ s.eng 1 = .established := by decide
 
 theorem T6_precancelled (cfg : Cfg) (hg : cfg.Good) (s : State) (c : Nat)
     (hp : (s.callers c).pc = .idle ∨ (s.callers c).pc = .finished) (hc : (s.callers c).cancelled = true) :
@@ -345,6 +492,18 @@ sub-attempt's `engine->close` is in the log (T3_non_ok_leaves_nothing_open, T6 h
 example : let s := run init [.call 0 true, .cEnter 0, .cConnect 0, .cRegister 0, .cPark 0, .cWake 0 true, .cClose 0, .cRelock 0,
       .cancel 0, .wLoop 0 false]
     Ev.wrapRet 0 (.err .cancelled) ∈ s.log ∧ Ev.engineClose 0 1 ∈ s.log ∧ (s.callers 0).cancelled = true := by decide
+/-- the engine-reported error: the connect is refused (reason 1) while the caller is parked; it returns `err closed` and the recorded
+reason is 1 (T_error_is_the_reported_one, T_reason_is_written_by_the_closing_step hypotheses) -/
+example : let x := xrun genCfg xinit [(.call 0 false, 0), (.cEnter 0, 0), (.cConnect 0, 0), (.cRegister 0, 0), (.cPark 0, 0),
+      (.ioPop true, 5), (.ioFail 1, 1), (.ioStep, 0), (.ioStep, 0), (.cWake 0 false, 0)]
+    Ev.attemptRet 0 (some 1) (.err .closed) ∈ x.core.log ∧ x.reason 1 = 1 ∧ x.core.eng 1 = .closed := by decide
+example : closeBegins (xrun genCfg xinit [(.call 0 false, 0), (.cEnter 0, 0), (.cConnect 0, 0), (.cRegister 0, 0), (.cPark 0, 0),
+      (.ioPop true, 5)]).core (.ioFail 1) = some 1 := by decide
+/-- a call requesting TLS mode 2 returns ok for a session created with mode 2 (T_tls_mode_of_returned_session hypotheses) -/
+example : let pre : List (Step × Nat) := [(.call 0 false, 2), (.cEnter 0, 0), (.cConnect 0, 0), (.cRegister 0, 0), (.cPark 0, 0),
+      (.ioPop true, 5), (.ioComplete 1, 0), (.ioStep, 0), (.ioStep, 0)]
+    Ev.attemptRet 0 (some 1) (.ok 1) ∈ (xstep genCfg (xrun genCfg xinit pre) (.cWake 0 false) 0).core.log ∧
+    Ev.attemptRet 0 (some 1) (.ok 1) ∉ (xrun genCfg xinit pre).core.log ∧ (xrun genCfg xinit pre).sessTls 1 = 2 := by decide
 /-- the argument layer: a call requesting TLS mode 1 -/
 example : let x := xrun genCfg xinit [(.call 0 false, 1), (.cEnter 0, 0), (.cConnect 0, 0), (.cRegister 0, 0), (.cPark 0, 0)]
     (x.core.callers 0).pc = .parked 1 false ∧ x.sessTls 1 = 1 ∧ x.reqTls 0 = 1 := by decide
